@@ -295,3 +295,28 @@ contract('parso.python.diff.DiffParser._get_old_line_stmt', params={'self': 'ref
                                    'lo(node) <= lo(leaf) and lo(leaf) <= hi(node)'],
                         decreases='depth(node)')},
          modifies=[], lists=[], theories=['tree', 'treepos', 'lookup', 'leafnum'], props=['C04'])
+
+
+# ---- _NodesTree._remove_endmarker (C04 text conservation at the seam between a parsed part and what follows): if the part
+# ends in the parser's synthetic end marker, that leaf is dropped from the nodes, and its prefix is split after the last line
+# break: the first part stays the (dropped) leaf's prefix and becomes the working prefix of the tree builder, the rest is
+# kept as the remainder -- together they are the prefix the end marker had, nothing is lost or duplicated.
+from pv.contract import class_fields as _cf  # noqa: E402
+_cf('_NodesTree', _own=True, prefix='str', _prefix_remainder='str')
+LASTN = 'tree_nodes[len(tree_nodes) - 1]'
+contract('parso.python.diff._NodesTree._remove_endmarker', params={'self': 'ref:_NodesTree', 'tree_nodes': 'list:ref:NodeOrLeaf'},
+         returns='list:ref:NodeOrLeaf',
+         requires=['tree_nodes is not None', 'len(tree_nodes) >= 1',
+                   'forall(lambda k: implies(0 <= k and k < len(tree_nodes), tree_nodes[k] is not None), trigger=lambda k: tree_nodes[k])'],
+         ensures=['implies(old(leaf_at(root(%s), hi(%s)).type) != "endmarker", result is tree_nodes and self.prefix == "" and '
+                  'self._prefix_remainder == "")' % (LASTN, LASTN),
+                  # text conservation
+                  'implies(old(leaf_at(root(%s), hi(%s)).type) == "endmarker", '
+                  'self.prefix + self._prefix_remainder == old(leaf_at(root(%s), hi(%s)).prefix))' % (LASTN, LASTN, LASTN, LASTN),
+                  'implies(old(leaf_at(root(%s), hi(%s)).type) == "endmarker", '
+                  'leaf_at(root(%s), hi(%s)).prefix == self.prefix)' % (LASTN, LASTN, LASTN, LASTN),
+                  # (that the remainder holds no line break -- rfind gives the *last* one -- is not stated: neither solver decides it)
+                  # the end marker is dropped from the nodes, all others are kept in order
+                  'implies(old(leaf_at(root(%s), hi(%s)).type) == "endmarker", len(result) == len(tree_nodes) - 1 and '
+                  'forall(lambda k: implies(0 <= k and k < len(result), result[k] is tree_nodes[k]), trigger=lambda k: result[k]))' % (LASTN, LASTN)],
+         raises=[], modifies=['prefix', '_prefix_remainder'], lists=[], theories=['tree', 'leafnum'], props=['C04'])
